@@ -1,4 +1,4 @@
-import ParolModel.Proofs.KDec
+import ParolModel.Proofs.KFollow
 /-! # C05 — LL(k) decision: accept iff strong-LL(k), with the minimal lookahead
 
 Property text: *For every grammar and lookahead limit K, parol's LL(k) pipeline accepts the
@@ -131,6 +131,18 @@ theorem pipeline_accepts_iff (G : Grammar) (fuel K : Nat)
       have hj0K : j0 ≤ K := Nat.le_trans hj0k hkK
       refine ⟨j0, (decidable_iff_strongLL G fuel K A (hall A hA) h2 j0).2
         ⟨hpos j0 hj0, hj0K, hj0, fun j _ hj => hmin j hj⟩, hcomp A hA j0 hj0K⟩
+
+/-- **Composition with C06**: for grammars of the property's class (no terminal 0, productive,
+    reachable, no (hidden) left recursion) the hypothesis "the sets are the declarative sets" is a
+    theorem, so the decision statement holds outright: `decidable` answers `Ok(k)` for a non-terminal
+    with at least two alternatives exactly when k is the smallest k in 1..K with strong-LL(k). -/
+theorem decidable_iff_strongLL_class (G : Grammar) (fuel K : Nat) (p : Rule) (hp : p ∈ G.prods)
+    (hno : NoEoi G) (hprod : Productive G) (hreach : Reachable G) (hnlr : NoLeftRec G)
+    (hcomp : ∀ k, 1 ≤ k → k ≤ K → (firstCode G fuel k).isSome ∧ (followCode G fuel k).isSome)
+    (h2 : 2 ≤ (prodIdxs G p.lhs).length) (k : Nat) :
+    decidableM G fuel p.lhs K = .ok k ↔
+      (1 ≤ k ∧ k ≤ K ∧ StrongLL G k p.lhs ∧ ∀ j, 1 ≤ j → j < k → ¬ StrongLL G j p.lhs) :=
+  decidable_iff_strongLL G fuel K p.lhs (c05Hyp_of_class hno hprod hreach hnlr hcomp hp) h2 k
 
 /-! ## non-vacuity -/
 
